@@ -265,7 +265,7 @@ def gen_cases(ctx):
     for _ in range(ctx.n(120, 1500)):
         n = r.randint(2, r.choice([64, 400, 5000]))
         m = r.choice([r.randint(2, n), r.randint(2, n), n, n + 1, r.randint(n, 2 * n), max(2, n - 1)])
-        m = min(m, 700)
+        m = min(m, 400)
         lin.append((0, n - 1, m) if r.random() < 0.5 else (n - 1, 0, m))
     c["linspace"] = lin
     # ---- slices
@@ -451,7 +451,8 @@ def run(ctx):
     for (start, stop, num), o in zip(cases["linspace"], obs["linspace"]):
         n = max(start, stop) + 1
         asc = start <= stop
-        ctx.case(("lin", start, stop, num), nontrivial=num >= 2 and num != n, sample={"linspace": [start, stop, num], "impl": o if not is_err(o) else o})
+        ctx.case(("lin", start, stop, num), nontrivial=num >= 2 and num != n,
+                 sample={"linspace": [start, stop, num], "impl": o} if (n, num) == (5, 8) and start > stop else None)
         ctx.count("linspace_" + ("beyond_side" if num > n else "within_side"))
         if is_err(o):
             ctx.add_failure("C16.linspace_idx", "np.linspace(%d, %d, %d, dtype=int) raised %s" % (start, stop, num, o["error"]),
@@ -465,15 +466,16 @@ def run(ctx):
                 ctx.add_failure("C16.linspace_idx", "np.linspace(%d, %d, %d, dtype=int) = %s violates the index-table specification"
                                 % (start, stop, num, o[:40]), {"oracle": "linspace", "args": [start, stop, num]})
         L.append("(%d, %d, %d, [%s])" % (start, stop, num, "; ".join(str(x) for x in o)))
-    for i in range(0, len(L), 500):
-        texts.append(("c16_lin_%d" % (i // 500), HDR + "Definition cases : list (Z * Z * Z * list Z) := [%s].\nEval vm_compute in (bad chk_linspace cases).\n"
-                      % ";\n".join(L[i:i + 500]), L[i:i + 500], "linspace_idx"))
+    for i in range(0, len(L), 300):
+        texts.append(("c16_lin_%d" % (i // 300), HDR + "Definition cases : list (Z * Z * Z * list Z) := [%s].\nEval vm_compute in (bad chk_linspace cases).\n"
+                      % ";\n".join(L[i:i + 300]), L[i:i + 300], "linspace_idx"))
 
     # ================================================================= _get_bbox_slices
     L = []
     for (h, w, v), o in zip(cases["slices"], obs["slices"]):
         inscope = h >= 2 and w >= 2 and (v is None or v >= 2)
-        ctx.case(("sl", h, w, v), nontrivial=v is not None and (v != h or v != w), sample={"slices": [h, w, v], "impl_top": o[0][:6] if not is_err(o) else o})
+        ctx.case(("sl", h, w, v), nontrivial=v is not None and (v != h or v != w),
+                 sample={"slices": {"shape": [h, w], "vertices_per_side": v}, "impl": o} if (h, w, v) == (4, 6, 3) else None)
         ctx.count("slices_" + ("out_of_scope" if not inscope else "vps_none" if v is None else "vps_beyond_side" if v > min(h, w) else "vps_within"))
         if is_err(o):
             if inscope:
@@ -544,7 +546,11 @@ def run(ctx):
         reversed_ = su != sf
         ctx.case(("ring", g["tag"], h, w, v, repr(g.get("k")), repr(g.get("extent")), g["lons"][0][0] if g["kind"] == "swath" else 0),
                  nontrivial=(v is not None and (v != h or v != w)) or reversed_ or g["tag"] != "enc" or g.get("k", 0) != 0,
-                 sample={"ring": {"tag": g["tag"], "shape": [h, w], "vps": v, "orientation": g.get("k")}, "impl_forced_sides": sf, "corner_is_clockwise": cw})
+                 sample={"ring_" + kindkey: {"tag": g["tag"], "shape": [h, w], "vertices_per_side": v, "orientation": g.get("k"),
+                                             "extent": g.get("extent")},
+                         "impl_forced_sides": sf if sum(len(x) for x in sf) <= 40 else {"lengths": [len(x) for x in sf], "first": [x[:3] for x in sf]},
+                         "corner_is_clockwise": cw, "reversed": reversed_, "SphPolygon_area": o.get("area")}
+                 if (v is not None or kindkey != "enc") and not (kindkey == "enc" and min(h, w) < 3) else None)
         what = "%dx%d %s%s, vertices_per_side=%s" % (h, w, g["tag"], "" if g.get("k") is None else " orientation %d" % g["k"], v)
         # ---- the property, clause by clause, on the forced ring and on boundary().contour
         allv = [p for s in sf for p in s] + cf + [p for s in su for p in s] + cu + ed
@@ -698,8 +704,10 @@ def run(ctx):
 
     # ================================================================= AreaBoundary.decimate (positions kept; memoised polygon)
     for (lens, q, touch), o in zip(cases.get("decimate", []), obs.get("decimate", [])):
-        ctx.case(("dec", tuple(lens), q, touch), nontrivial=q > 1, sample={"decimate": {"side_lengths": lens, "ratio": q, "contour_poly_before": touch},
-                                                                         "impl_positions": o.get("positions") if not is_err(o) else o})
+        ctx.case(("dec", tuple(lens), q, touch), nontrivial=q > 1,
+                 sample={"decimate": {"side_lengths": lens, "ratio": q, "contour_poly_read_before": touch},
+                         "impl_positions": o.get("positions"), "contour_poly_vertices_after": o.get("poly_n_after")}
+                 if not is_err(o) and q >= 2 and 5 <= max(lens) <= 14 and (touch or lens[0] == 11) else None)
         ctx.count("decimate_" + ("after_contour_poly" if touch else "fresh"))
         rep = {"oracle": "decimate", "args": [lens, q, touch]}
         if is_err(o):
@@ -768,7 +776,7 @@ def run(ctx):
         poly = clip_rect(disk, ext)
         cut = len(poly) >= 3 and any(not (ext[0] < x < ext[2] and ext[1] < y < ext[3]) for x, y in disk)
         ctx.case(("geos", g["tag"], tuple(ext), v, g["lon_0"]), nontrivial=cut or v is not None,
-                 sample={"geos": {"extent": ext, "vps": v}, "impl_side_lengths": [len(s[0]) for s in o["sides_proj"]] if not is_err(o["sides_proj"]) else o["sides_proj"]})
+                 sample=None if not cut or v in (2, 3, 4) else {"geos": {"extent": ext, "vertices_per_side": v, "lon_0": g["lon_0"]}, "impl_side_lengths": [len(s[0]) for s in o["sides_proj"]] if not is_err(o["sides_proj"]) else o["sides_proj"]})
         ctx.count("geos_" + ("empty" if len(poly) < 3 else "partial_disk" if cut else "inside_disk"))
         if len(poly) < 3 or poly_area(poly) < 1e-6 * X * Y:
             continue   # the area does not see the Earth: an error is the documented answer
@@ -826,7 +834,13 @@ def run(ctx):
         m = [sum(p[i] for p in ring) for i in range(3)]
         nrm = math.sqrt(dot(m, m))
         m = tuple(x / nrm for x in m)
-        if abs(winding(m, ring) + 2 * math.pi) > 1e-3 or any(winding(p, ring) < -math.pi for p in far_points(m)[:1]):
+        # the normalised mean of the vertices is inside the ring when the ring is spherically convex (every turn to the right:
+        # a convex region within a hemisphere contains the normalised convex combinations of its points).  A sparse ring next
+        # to the limb need not be convex on the sphere although it is in the projection plane; then the probe proves nothing.
+        nr = len(ring)
+        convex = all(dot(cross(ring[i], ring[(i + 1) % nr]), ring[(i + 2) % nr]) < 0 for i in range(nr))
+        ctx.count("geos_inside_probe_" + ("convex_ring" if convex else "skipped_nonconvex_ring"))
+        if convex and (abs(winding(m, ring) + 2 * math.pi) > 1e-3 or any(winding(p, ring) < -math.pi for p in far_points(m)[:1])):
             ctx.add_failure("C16.footprint.inside", "%s: the middle of the ring is not inside it / its antipode is" % what, rep)
             continue
         # correspondence: which intersection vertices go to which side
@@ -840,10 +854,14 @@ def run(ctx):
 
     # ================================================================= model evaluation
     res = ctx.coq_eval_many([(n, t) for n, t, _, _ in texts])
-    for name, _, lines, what in texts:
+    for name, text, lines, what in texts:
         out, ok = res[name]
         if not lines:
             continue
+        if not ok and not out.strip():
+            # no diagnostic at all: the evaluation was killed (time limit on a loaded machine); evaluate this file again, alone
+            out, ok = ctx.coqc(name + "_retry", text, timeout=2400) if hasattr(ctx, "coqc") else (out, ok)
+            ctx.notes.append("model evaluation of %s was killed without output and repeated alone (%s)" % (name, "ok" if ok else "failed again"))
         if not ok:
             ctx.broken.append(("correspondence:" + what, "model evaluation failed: " + out[-300:]))
             continue
@@ -851,7 +869,10 @@ def run(ctx):
         if bad:
             ctx.broken.append(("correspondence:" + what, "model and implementation differ on %d of %d cases, e.g. %s" % (len(bad), len(lines), lines[bad[0]][:300])))
     ctx.traces = sum(len(l) for _, _, l, _ in texts)
-    ctx.exhaustive = False
+    ctx.exhaustive = False   # only sub-streams are enumerated completely (see the note), the geometries are sampled
+    ctx.notes.append("enumerated completely in this tier: index tables for all side lengths and vertex counts 1..30 (both directions); "
+                     "_get_bbox_slices for all shapes 2..8 x 2..8 x vertices_per_side None,2..12; AreaBoundary.decimate for sides of 2..12 vertices "
+                     "x ratio 1..7%s" % ("; encoded swaths in all 8 orientations x shapes 2..8 x 2..8 x vertices_per_side None,2..12" if ctx.thorough else ""))
     ctx.notes.append("H_corner_is_clockwise, H_footprint, H_geos_intersection are validated by search on the implementation only (spherical geometry is not modelled)")
     ctx.notes.append("timing: driver %.1fs, oracle+coq %.1fs" % (t_impl - t_start, time.time() - t_impl))
     print("C16 timing: driver %.1fs, oracle+model %.1fs, cases=%d" % (t_impl - t_start, time.time() - t_impl, ctx.evaluations))
